@@ -123,6 +123,8 @@ class Sampler:
 				raise ValueError(f'no sample token for regexp terminal /{rx}/ — the sentence sampler does not know this grammar')
 			self.pools[rx] = pool
 		self.height: dict[str, int] = {}
+		self.budget = 40
+		self.or_bias = 1.0
 		self._compute_heights()
 
 	# minimal derivation height per symbol (fixpoint), used to steer towards termination near the depth limit
@@ -149,23 +151,29 @@ class Sampler:
 		vals = [self._h(e, h) for e in p.entries]
 		return min(vals) if p.op == Operators.Or else max(vals, default=0)
 
-	def derive(self, symbol: str, depth: int = 0) -> list[str]:
+	def derive(self, symbol: str, depth: int = 0, budget: int | None = None) -> list[str]:
+		"""Random derivation of `symbol`. `budget` (soft token budget) is reset when given."""
+		if budget is not None:
+			self.budget = budget
 		return self._pat(self.rules[symbol], depth + 1, symbol)
 
 	def _pat(self, p: Any, depth: int, owner: str) -> list[str]:
 		from rogw.tranp.implements.syntax.tranp.rule import Operators, Repeators, Roles
 		rng = self.rng
 		room = self.max_depth - depth
+		broke = self.budget <= 0
 		if isinstance(p, self.Pattern):
 			if p.role == Roles.Symbol:
 				return self.derive(p.expression, depth)
+			self.budget -= 1
 			if p.comp == self.Comps.Equals:
 				return [p.expression]
 			return [rng.choice(self.pools[p.expression])]
 		if p.rep != Repeators.NoRepeat:
-			need = self._h(self.Patterns(p.entries, p.op), self.height)
-			prob = self.opt_prob.get(owner, self.base_opt) * (1.0 if room > 30 else 0.5 if room > 15 else 0.2)
-			if need >= room:
+			body = self.Patterns(p.entries, p.op)
+			need = self._h(body, self.height)
+			prob = self.opt_prob.get(owner, self.base_opt)
+			if need >= room or broke:
 				prob = 0.0
 			if p.rep in (Repeators.OneOrZero, Repeators.OneOrEmpty):
 				n = 1 if rng.random() < prob else 0
@@ -178,16 +186,18 @@ class Sampler:
 				while n < 3 and rng.random() < prob:
 					n += 1
 			out: list[str] = []
-			body = self.Patterns(p.entries, p.op)
 			for _ in range(n):
 				out.extend(self._pat(body, depth, owner))
 			return out
 		if p.op == Operators.Or:
-			ok = [e for e in p.entries if self._h(e, self.height) < room]
-			if not ok:
-				best = min(self._h(e, self.height) for e in p.entries)
-				ok = [e for e in p.entries if self._h(e, self.height) == best]
-			return self._pat(rng.choice(ok), depth, owner)
+			hs = [self._h(e, self.height) for e in p.entries]
+			if broke or min(hs) >= room:
+				best = min(hs)
+				ok = [e for e, h in zip(p.entries, hs) if h == best]
+				return self._pat(rng.choice(ok), depth, owner)
+			cand = [(e, h) for e, h in zip(p.entries, hs) if h < room]
+			weights = [1.0 / (1 + h) ** self.or_bias for _, h in cand]
+			return self._pat(rng.choices([e for e, _ in cand], weights=weights)[0], depth, owner)
 		out = []
 		for e in p.entries:
 			out.extend(self._pat(e, depth, owner))
